@@ -154,6 +154,30 @@ PROPS['C18'] = hist_prop(7,
     "none beyond the model/implementation correspondence")
 PROPS['C02']['projections'].append(dict(name='history', spec_index=1, n_quick=60, n_thorough=1000))
 
+BRANCH_NAMES['determinism'] = ['evaluations', 'rounds']
+PROPS['C01'] = dict(
+    level='proof',
+    projections=[dict(name='determinism', spec_index=1, n_quick=60, n_thorough=600),
+                 dict(name='history', spec_index=None, n_quick=96, n_thorough=1500),
+                 dict(name='agg', args=['-kinds', '0,1,2'], spec_index=1, n_quick=900, n_thorough=20000)],
+    rule="determinism: every round of directed histories (two competing definitions with f+1 votes each, ...) and of generated histories "
+         "(order-stress: 2..22 channels over 4 streams under 3 aggregators, competing definitions, equal-count type/mode ties, numerically equal "
+         "decimals; plus random histories) is re-evaluated k=12 (thorough 100) times on freshly built plugin instances, Outcome bytes and "
+         "Reports (JSON codec bytes + info) compared; history/agg: see C03/C02. Distinct by SHA-1 of the input.",
+    explanation="Theorems C01_* prove that every map-iteration site of the consensus code is insensitive to the iteration order: sort of "
+                "entries with distinct keys is unique, the channel-definition update of Plugin.outcome (removal loop, candidate slice sorted by "
+                "(id, hash)), ReportableChannels, the mode tie-break and the Mercury frequency-map selectors give one result for every "
+                "permutation; the pre-repair id-only comparator is refuted by a witness. All model functions are pure functions of "
+                "(config, seqNr, previous outcome, observations). The implementation is checked against this by repeated evaluation on fresh "
+                "instances (byte comparison) and by the per-round correspondence of the history projection.",
+    assumptions=["MakeChannelHash (SHA-256) distinguishes distinct definitions of one channel id",
+                 "Go's sort.Slice and protobuf deterministic marshalling are functions of their input"],
+    level_text="Coq theorems that the modelled consensus functions are insensitive to Go's map iteration order at every range site, plus "
+               "repeated evaluation of the real Outcome/Reports on fresh plugin instances with byte comparison.",
+    level_note="Trusted: Coq kernel + vm_compute; hand-written model; the clause about other processes/restarts is covered by fresh "
+               "factory-built instances (no shared state), not by separate OS processes in the quick tier. Axioms: none.",
+)
+
 
 def load_known_findings(root):
     p = os.path.join(root, 'known_findings.jsonl')
